@@ -31,6 +31,8 @@ RULES = {
     "R16.8": "operators a wrapper defines itself compute the built-in's result: forward op is "
              "self._data <op> other, reflected op is other <op> self._data; only commutative "
              "operators may alias their reflected form",
+    "R16.4c": "pairing: in a list mutator every _add hook is followed by the store of that element "
+              "before another _add hook can run (CFG: no store-free path from a hook to a hook)",
     "R16.9": "a caller-supplied iterable is materialised (list(v)) before ownership hooks that can "
              "re-enter the collection run over it",
     "R16.5": "the symbolic-expression mapping stores into a SortedDict mutated only by "
@@ -297,6 +299,22 @@ def _list_hooks(chk: Check, types: TypeEnv) -> None:
                        "for an extended slice whose length differs from the number of values: the "
                        "failed operation leaves elements detached but listed"
                        % (f.qualname, ", ".join(sorted({h[0] for h in before})), unparse(m)[:40]), 3)
+            # ---- (c) an element is stored before the next ownership hook runs
+            store_nodes = {cfg.node_of(m) for m in muts}
+            add_nodes = [hn for hname, hn, _h in hooks if hname == "_add"]
+            for hn in add_nodes:
+                batched = False
+                for s_ in cfg.g.successors(hn):
+                    for other in add_nodes:
+                        if s_ == other and s_ not in store_nodes:
+                            batched = True
+                        elif s_ not in store_nodes and cfg.path_avoiding(s_, other, store_nodes) is not None:
+                            batched = True
+                chk.ob("R16.4c", "%s:add-hook-then-store-per-element" % f.qualname, not batched, f.loc(),
+                       "%s can run the _add ownership hook for a second element before the first one "
+                       "is stored: the hook detaches an element from its current list (by value), so "
+                       "an element named twice — or a hook that raises — leaves elements that claim "
+                       "this owner, are in its UUID table, and are listed nowhere" % f.qualname, 3)
             # ---- (b) positions computed before a re-entrant hook, used after it
             for hname, hn, h in hooks:
                 if hname not in reentrant:
